@@ -6,6 +6,20 @@ Step == /\ More
         /\ ChkB("relation " \o rel, StepOK(Ev.a, Ev.b, Ev.fresh, Ev.cmp, Ev.off),
                 <<"A", Ev.a, "B", Ev.b, "offset", IF Ev.fresh THEN Ev.off ELSE off, "prevA", prevA, "bDrifted", bDrifted>>)
         /\ Advance(Ev.a, Ev.b, Ev.fresh, Ev.off) /\ Adv
-Next == Step
+(* ---- known departure of the code (open finding F27; switched on only in the second pass over rejected traces) ----
+   Page-Hinkley compares the difference PH - min (>= 0) with  threshold x running mean.  While the running mean is NEGATIVE every positive
+   threshold gives a negative level, which a difference of exactly 0 already exceeds, whereas threshold 0 gives the level 0, which it does
+   not: the run with the LARGER threshold alarms first.  The step is explained by the finding iff exactly that is on record: family
+   PageHinkley, the stricter run alarms and the looser one does not, the looser run's level is 0, the stricter run's level is negative and
+   its difference is exactly 0.  (nums of a Page-Hinkley projection: value, difference, level, minimum, maximum, mean) *)
+Devs == IF "DEVIATIONS" \in DOMAIN IOEnv THEN IOEnv.DEVIATIONS ELSE ""
+DevPHNegativeMean ==
+  /\ Devs = "PHNegativeMeanZeroThreshold" /\ More /\ rel = "FirstDriftNotLater"
+  /\ Traces[tid].cfg.fam = "PageHinkley"
+  /\ Ev.a.state = "drift" /\ Ev.b.state # "drift" /\ ~bDrifted
+  /\ Len(Ev.a.nums) = 6 /\ Len(Ev.b.nums) = 6
+  /\ NSign(Ev.b.nums[3]) = 0 /\ NSign(Ev.a.nums[3]) = -1 /\ NSign(Ev.a.nums[2]) = 0 /\ NSign(Ev.a.nums[6]) = -1
+  /\ Advance(Ev.a, Ev.b, Ev.fresh, Ev.off) /\ Adv
+Next == Step \/ DevPHNegativeMean
 Spec == Init /\ [][Next]_tvars
 =============================================================================
